@@ -15,3 +15,4 @@ def run(run):
     gsm.bfs_slice(run, 'C13', 4 if quick else 5, keep=KEEP)
     gsm.simulate(run, 'C13', 12, 3000 if quick else 50000, keep=KEEP, lang='LDef', timeout=300 if quick else 1800)
     gsm.simulate(run, 'ALL', 14, 2000 if quick else 30000, keep=KEEP, timeout=300 if quick else 1800)
+    gsm.simulate(run, 'C13', 10, 1500 if quick else 20000, keep=KEEP, lang='LSet', timeout=300 if quick else 1800)
